@@ -80,11 +80,21 @@ def _epoch(d1, d2, d3, d4, bidle, sa, sb, u, star, nd):
     opa = core.PARAMS["opa"]
     opb = core.PARAMS["opb"]
     tag = "epoch"
+    # numbers that are used as list positions / formatted into responses: one decision-tree leaf per value
+    # (left symbolic they fork again at every later use without merging); only the dimensions a job uses
+    if opa in ("store", "move", "copy_same"):
+        sa = core.pick(sa, 1, n + 1)
+    if opb in ("fetch", "store"):
+        sb = core.pick(sb, 1, n + 1)
+    if opa == "uid_expunge" or opb == "uidfetch":
+        u = core.pick(u, core.PARAMS["umin"], core.PARAMS["umax"] + 1)
+    if opa in ("deliver", "expunge_deliver", "idle_expunge", "check"):
+        nd = core.pick(nd, 0, 3)
     keys, uids = KEYS[:n], UIDS[:n]
     # dimensions a job does not use are never inspected (no fork)
     uses_dels = opa in ("expunge", "uid_expunge", "close", "expunge_deliver")
     dels = {k for k, d in zip(keys, (d1, d2, d3, d4)) if d} if uses_dels else set()
-    uidset = [(env.realize(u), "*")] if star else [u]
+    uidset = [(u, "*")] if star else [u]
     w = World()
     mb = w.mailbox("inbox", keys, uids, {"Seen": set(keys), "Deleted": dels})
     other = w.mailbox("other", [1], [1], {"Seen": {1}})
